@@ -101,7 +101,7 @@ def generate(prop, seed, tier):
 # --------------------------------------------------------------------------
 
 
-def snapshot(obj, baseline=None):
+def snapshot(obj, baseline=None, public_only=False):
     """Bit-exact structural description of everything mutable reachable from obj.
     Caches (TransformedModel._sample) are reported separately."""
     seen = {}
@@ -142,7 +142,7 @@ def snapshot(obj, baseline=None):
                 if type(o).__name__ == "TransformedModel" and k == "_sample":
                     caches[path + "._sample"] = None if v is None else core.digest(v)
                     continue
-                if k.startswith("_") and baseline is not None and (path + "." + k) not in baseline:
+                if k.startswith("_") and (public_only or (baseline is not None and (path + "." + k) not in baseline)):
                     continue  # a private attribute that appeared after creation: a cache, not model state
                 names.add(path + "." + k)
                 items.append([k, walk(v, path + "." + k)])
@@ -420,6 +420,7 @@ def execute_universe(scen, only_slot=None, run=None):
         epoch_at = {}
         snaps = {i: snapshot(s.model) for i, s in slots.items()} if checking else {}
         base_names = {i: snaps[i][1]["__names__"] for i in snaps}
+        cache_names = {i: set() for i in snaps}  # private attributes that first appeared during an evaluation
         glob0 = module_globals()
         for k, op in enumerate(scen["ops"]):
             if op["op"] == "skew":
@@ -439,7 +440,7 @@ def execute_universe(scen, only_slot=None, run=None):
                 fit_epoch[s] += 1
                 seams.pin_global(_pin_for(scen, s, local))
                 exc, fired = do_fit(slot, op)
-                digests[k] = core.digest([snapshot(slot.model)[0], type(exc).__name__ if exc else None])
+                digests[k] = core.digest([snapshot(slot.model, public_only=True)[0], type(exc).__name__ if exc else None])
                 if checking:
                     if fired:
                         run.count("fault:F1-optimiser-failure", fired)
@@ -449,7 +450,9 @@ def execute_universe(scen, only_slot=None, run=None):
                     for j, other in slots.items():
                         tree, caches = snapshot(other.model, None if j == s else base_names[j])
                         if j == s:
-                            base_names[j] = caches["__names__"]
+                            # what the fit created is state from now on; what evaluations created stays a cache
+                            base_names[j] = caches["__names__"] - cache_names[j]
+                            tree, caches = snapshot(other.model, base_names[j])
                         if j != s:
                             if tree != snaps[j][0]:
                                 run.violate("I2-fit-changes-another-model", f"{slot.spec['kind']}->{other.spec['kind']}", {"fitted_slot": s, "changed_slot": j, "where": first_diff(snaps[j][0], tree), "same_getter": slot.spec["kind"] == other.spec["kind"], "step": k})
@@ -510,6 +513,8 @@ def execute_universe(scen, only_slot=None, run=None):
                     return digests
                 # I1: purity - every slot's snapshot unchanged
                 for j, other in slots.items():
+                    allnames = snapshot(other.model, None)[1]["__names__"]
+                    cache_names[j] |= {nm for nm in allnames - base_names[j] if nm.rsplit(".", 1)[-1].startswith("_")}
                     tree, caches = snapshot(other.model, base_names[j])
                     if tree != snaps[j][0]:
                         run.violate("I1-evaluation-changes-model", f"{op['op']}" + ("" if j == s else "/other-model"), {"evaluated_slot": s, "changed_slot": j, "kind": other.spec["kind"], "where": first_diff(snaps[j][0], tree), "step": k})
